@@ -119,6 +119,18 @@ func runDiff(c Case) *ev.Failure {
 	if !bytes.Equal(w.Bytes(), ref) {
 		return ev.Failf(sigFor(c.Msg.AVPs, "writeto-differs"), "WriteTo differs from the reference at offset %d:\n lib % x\n ref % x", firstDiff(w.Bytes(), ref), clip(w.Bytes()), clip(ref))
 	}
+	// the bytes Serialize returned belong to the caller: serialising and writing ANOTHER message
+	// afterwards must not change them
+	other := diam.NewMessage(280, 0x80, 0, 0x0badf00d, 0x0badcafe, p)
+	other.NewAVP(264, 0x40, 0, datatype.DiameterIdentity("another.message.example"))
+	other.NewAVP(296, 0x40, 0, datatype.DiameterIdentity("example"))
+	if ob, err := other.Serialize(); err == nil {
+		var sink bytes.Buffer
+		other.WriteTo(&sink)
+		if !bytes.Equal(b1, ref) {
+			return ev.Failf("serialized-bytes-changed-later", "the slice returned by Serialize changed when another message (%d bytes) was serialised and written afterwards; first difference at offset %d:\n now % x\n ref % x", len(ob), firstDiff(b1, ref), clip(b1), clip(ref))
+		}
+	}
 	// (b) reading the reference image yields the encoded values
 	m2, err := diam.ReadMessage(bytes.NewReader(ref), p)
 	if err != nil {
